@@ -23,6 +23,7 @@ fn dispatch(cmd: &Value) -> Value {
 		"fmt" => misc::cmd_fmt(cmd),
 		"interner" => misc::cmd_interner(cmd),
 		"thunks" => misc::cmd_thunks(cmd),
+		"preintern" => misc::cmd_preintern(cmd),
 		"locate" => misc::cmd_locate(cmd),
 		"ping" => json!({"k":"pong"}),
 		_ => json!({"k":"tool_error","msg":format!("unknown cmd {name}")}),
@@ -39,9 +40,17 @@ fn panic_message(p: Box<dyn std::any::Any + Send>) -> String {
 	}
 }
 
+static PANIC_LOC: std::sync::Mutex<String> = std::sync::Mutex::new(String::new());
+
 fn worker() {
 	// Silence the default panic hook: panics are reported as data.
-	std::panic::set_hook(Box::new(|_| {}));
+	std::panic::set_hook(Box::new(|info| {
+		if let Some(l) = info.location() {
+			if let Ok(mut g) = PANIC_LOC.lock() {
+				*g = format!("{}:{}", l.file(), l.line());
+			}
+		}
+	}));
 	let stdin = std::io::stdin();
 	let stdout = std::io::stdout();
 	for line in stdin.lock().lines() {
@@ -65,7 +74,8 @@ fn worker() {
 			Err(p) => {
 				// Thread-local interpreter state may be left dirty by a panic; report it and let
 				// the driver decide (it restarts the worker after a crash).
-				json!({"k":"crash","how":"panic","msg":panic_message(p)})
+				let loc = PANIC_LOC.lock().map(|g| g.clone()).unwrap_or_default();
+				json!({"k":"crash","how":"panic","msg":panic_message(p),"loc":loc})
 			}
 		};
 		if let Value::Object(m) = &mut res {
